@@ -370,9 +370,11 @@ def _collect_bound_values(
         if isinstance(node, GraphNode):
             # Get bound values from the inner graph
             inner_bound = node.graph.inputs.bound
-            # Merge into all_bound (current graph's values take precedence)
-            for key, value in inner_bound.items():
-                if key not in all_bound:
-                    all_bound[key] = value
+            # Merge into all_bound under the node's current (possibly renamed) input
+            # names (current graph's values take precedence)
+            for param in node.inputs:
+                original = node._resolve_original_input_name(param)
+                if original in inner_bound and param not in all_bound:
+                    all_bound[param] = inner_bound[original]
 
     return all_bound
